@@ -6,17 +6,17 @@ namespace QV.Driver
 open QV QV.Codes QV.Spec.Codes
 
 /-- ops of group `codes` (C17); text arguments are the hex of the UTF-8 octets -/
-def kindArg (s : String) : Option Kind :=
+private def kindArg (s : String) : Option Kind :=
   if s = "t" then some .type else if s = "c" then some .class
   else if s = "qt" then some .qtype else if s = "qc" then some .qclass else none
 
-def mParse : Kind → Text → Out ParseErr Nat
+private def mParse : Kind → Text → Out ParseErr Nat
   | .type => typeFromStr
   | .class => classFromStr
   | .qtype => qtypeFromStr
   | .qclass => qclassFromStr
 
-def mDisplay : Kind → Nat → Text
+private def mDisplay : Kind → Nat → Text
   | .type => typeDisplay
   | .class => classDisplay
   | .qtype => qtypeDisplay
